@@ -20,7 +20,8 @@ import (
 // transient faults; oracle: whenever the commands report success every bundle still downloads.
 
 type c13scn struct {
-	hist   string // base | orphan
+	hist   string // base | orphan | many (base + a 12-leaf file: with chunk size 1 the index has more than 10 chunks,
+	// whose names chunk-1, chunk-10, chunk-11, chunk-2 ... are not listed in numeric order)
 	upload string // none | fresh | shares-indexed | reuses-orphan
 }
 
@@ -45,6 +46,9 @@ func c13setup(x *lib.Exec, s c13scn) *c14world {
 	must(cw.apply(c14step{"upload", "x:r3", "C"}))
 	must(cw.apply(c14step{"upload", "r1", "C"}))
 	must(cw.apply(c14step{"delete", "r1", ""}))
+	if s.hist == "many" {
+		must(cw.apply(c14step{"upload", "r2", "B"}))
+	}
 	time.Sleep(time.Second)
 	x.Data["cw"] = cw
 	return cw
@@ -133,7 +137,11 @@ func c13scenario(s c13scn) *lib.Scenario {
 	}
 	purgeOpts := func(x *lib.Exec, cw *c14world, sub string, extra ...core.PurgeOption) []core.PurgeOption {
 		dir := x.Data["dir"].(string) + "/" + sub
-		return append([]core.PurgeOption{core.WithPurgeLocalStore(dir), core.WithPurgeLogger(nopLogger), core.WithPurgeIndexChunkSize(2),
+		chunk := uint64(2)
+		if s.hist == "many" {
+			chunk = 1
+		}
+		return append([]core.PurgeOption{core.WithPurgeLocalStore(dir), core.WithPurgeLogger(nopLogger), core.WithPurgeIndexChunkSize(chunk),
 			core.WithPurgeExtraContexts([]context2.Stores{cw.extra.Stores()}), core.WithPurgeParallel(1)}, extra...)
 	}
 	sc.Phases = [][]lib.ClientFn{
@@ -265,11 +273,14 @@ func TestC13(t *testing.T) {
 	if lib.Thorough() {
 		fb = 2
 	}
-	rep.Rule = fmt.Sprintf("history: 3 repos over 2 contexts sharing deduplicated blobs, a deleted bundle (orphaned blobs), optionally a bundle deleted earlier whose content is uploaded again later; index build with chunk size 2 where EVERY store call is a fault point (reads: transient error; writes: transient before / after / after-reading-the-body, crash before / after) and a 5-minute clock tick may fire the chunk uploader at any step; after a crash the build is resumed; then one of 4 uploads (none / fresh / sharing indexed blobs / re-using orphaned blobs); then delete-unused with a transient fault on any of its store calls; <=%d deviations per execution; oracle: if the commands reported success, every bundle committed before the index and the bundle uploaded after it download with their original bytes; distinct = distinct (scenario, fault site, outcome)", fb)
+	rep.Rule = fmt.Sprintf("history: 3 repos over 2 contexts sharing deduplicated blobs, a deleted bundle (orphaned blobs), optionally a bundle deleted earlier whose content is uploaded again later; index build with chunk size 2 (and, history 'many', chunk size 1 over 15 keys: more than 10 chunks, listed out of numeric order on resume) where EVERY store call is a fault point (reads: transient error; writes: transient before / after / after-reading-the-body, crash before / after) and a 5-minute clock tick may fire the chunk uploader at any step; after a crash the build is resumed; then one of 4 uploads (none / fresh / sharing indexed blobs / re-using orphaned blobs); then delete-unused with a transient fault on any of its store calls; <=%d deviations per execution; oracle: if the commands reported success, every bundle committed before the index and the bundle uploaded after it download with their original bytes; distinct = distinct (scenario, fault site, outcome)", fb)
 	var scs []*lib.Scenario
-	for _, h := range []string{"base", "orphan"} {
+	for _, h := range []string{"base", "orphan", "many"} {
 		for _, u := range []string{"none", "fresh", "shares-indexed", "reuses-orphan"} {
 			if u == "reuses-orphan" && h != "orphan" {
+				continue
+			}
+			if h == "many" && u != "none" {
 				continue
 			}
 			if h == "orphan" && (u == "fresh" || u == "shares-indexed") && !lib.Thorough() {
